@@ -25,7 +25,7 @@ RULE = ("perr: random scripts of parser/scanner/sub-parser error events (cluster
 
 def run(ctx):
     ctx.assumptions += [
-        "whole-parser termination and absence of panics outside the error handling are covered by search only (per-input watchdog 3 s; a hang aborts the run with a violation)",
+        "whole-parser termination and absence of panics outside the error handling are covered by search only (per-input budget of 20 s of process CPU time (deep-nesting children: 20-60 s of child CPU time); a wall-clock cap hit without exhausting the CPU budget is counted as inconclusive, never a violation)",
         "positions of errors are compared as (file name, line, column) in the order of scanner.ErrorList.Sort, as go/scanner does (line directives included)",
         "stack exhaustion on multi-megabyte nesting is probed in child processes in the thorough tier only",
     ]
